@@ -855,3 +855,36 @@ def float_exact(check: Check, repo: Repo, rule: str = "FLOAT-EXACT") -> None:
                      f"the converted value is never compared with `{p}`: an exact {params[p] or 'number'} beyond 2**53 is rounded silently")
     if n < 1:
         raise AnalysisError("FLOAT-EXACT: no exact-number conversion found (coerce_float_from_int expected)")
+
+
+LIST_VALUE_SITES = [
+    # (module, function, the external value it inspects)
+    ("utilities.coerce_input_value", "coerce_input_value", "input_value"),
+    ("utilities.validate_input_value", "validate_input_value_impl", "input_value"),
+    ("utilities.value_to_literal", "value_to_literal", "value"),
+    ("utilities.value_to_literal", "default_scalar_value_to_literal", "value"),
+    ("utilities.ast_from_value", "ast_from_value", "value"),
+    ("type.validate", "uncoerce_default_value", "value"),
+    ("type.validate", "InputObjectDefaultValueCircularRefsValidator.detect_value_default_value_cycle", "default_value"),
+]
+_COLLECTION_CLASSES = {"list", "tuple", "set", "frozenset", "Sequence", "Iterable", "Collection", "List", "Tuple"}
+
+
+def list_value_predicate(check: Check, repo: Repo, rule: str = "LIST-VALUE-PREDICATE") -> None:
+    from sa.loader import class_tests
+
+    check.rule(
+        rule,
+        "every routine that walks an external (Python) input value decides 'this is a list value' with the same "
+        "predicate, pyutils.is_iterable: value coercion, value validation, the value -> literal writers, the default-value "
+        "uncoercion and the default-value cycle detector of schema validation. A routine that narrows it to "
+        "isinstance(<value>, list) disagrees on tuples: a tuple default is coerced and validated as a list, but a cycle "
+        "running through it is not detected and the schema passes validation",
+    )
+    for mn, q, p in LIST_VALUE_SITES:
+        fn = repo.func(mn, q)
+        uses = [c for c in walk_body(fn) if isinstance(c, ast.Call) and call_name(c) == "is_iterable" and c.args and unparse(c.args[0]) == p]
+        narrow = class_tests(fn, p) & _COLLECTION_CLASSES
+        ok = bool(uses) and not narrow
+        check.ob(rule, fn, f"{q}: list values of `{p}`", ok,
+                 f"is_iterable({p})" if ok else (f"tests `{p}` against {sorted(narrow)}" if narrow else f"no is_iterable({p}) test") + " - the siblings use is_iterable")
